@@ -33,10 +33,12 @@ def cases(tier, seed):
         if i % 8 == 6:
             # header arrays that fill their 512-byte footer pages exactly (trace count a multiple of 128)
             nI, nX, nZ = [(8, 16, 6), (16, 8, 5)][(i // 8) % 2]
+        if i % 10 == 9:
+            nI, nX, nZ = 6, 19, 9          # (several 16-wide blocks along the crosslines, see below)
         # 'to0': a descending axis whose last line is numbered 0 (0 is an existing coordinate that is not the first one)
         il0 = -ils * (nI - 1) if il0 == 'to0' else il0
         xl0 = -xls * (nX - 1) if xl0 == 'to0' else xl0
-        src = conv.src_desc(rng, '3d', (nI, nX, nZ), il=[il0, ils], xl=[xl0, xls], fmt=5, valkind='smooth', dt=rng.choice([4000, 2000, 1000]), t0=rng.choice([0, 8, -8, -4]),
+        src = conv.src_desc(rng, '3d', (nI, nX, nZ), il=[il0, ils], xl=[xl0, xls], fmt=5, valkind='smooth', dt=rng.choice([4000, 2000, 1000, 1001, 2002, 4004]), t0=rng.choice([0, 8, -8, -4]),
                             hdr={'seed': rng.randrange(1 << 20), 'nfields': rng.randint(1, 3), 'inside': True}, interval_hdr=[None, None, 'bin-zero', 'bin-differs', 'trace-zero'][i % 5])
         if i % 10 == 7:
             src['text_special'] = True
@@ -45,6 +47,9 @@ def cases(tier, seed):
             # traces longer than one disk block of the default layout (depth slices beyond the first block)
             src['shape'] = [src['shape'][0], src['shape'][1], 140]
             rate_, bs_ = 16, [4, 4, -1]
+        if i % 10 == 9:
+            # z-slice layout with several blocks along the crosslines (depth_slice goes through the block redistribution)
+            rate_, bs_ = 32, [16, 16, 4]
         out.append({'id': 'emu:%d:il%+d:xl%+d' % (i, ils, xls), 'src': src, 'nexpr': 150 if tier == 'quick' else 500, 'rate': rate_,
                     'bs': bs_, 'cost': 2})
     return out
